@@ -7479,7 +7479,7 @@ void UniCompiler::emit_4v(UniOpVVVV op, const Operand_& dst_, const Operand_& sr
             if (!src2.is_reg())
               cc->emit(fma_ac_add_b[fma_id], dst, src3, src2);
             else if (!src3.is_reg())
-              cc->emit(fma_ab_add_c[fma_id], dst, src1, src3);
+              cc->emit(fma_ab_add_c[fma_id], dst, src2, src3);
             else
               cc->emit(fma_ab_add_c[fma_id], dst, src2, src3);
           }
